@@ -175,6 +175,7 @@ pub fn scenario(p: &GenParams) -> BoxedStrategy<Scenario> {
             // a third of the games sample their controller per tick: a stalled frame is resubmitted with other values
             sc.resubmit_varies = (seed >> 44) % 3 == 0;
             sc.double_submit = (seed >> 40) % 4 == 0;
+            sc.weak_checksum = (seed >> 32) % 6 == 0;
             // one game in eight saves without checksums on its first peer (asymmetric use of desync detection)
             if (seed >> 36) % 8 == 0 {
                 sc.peers[0].no_checksum = true;
